@@ -1131,7 +1131,8 @@ class Client():
                                       ('errored', self.respondent.errored),
                                       ('error', self.respondent.error),
                                      ])
-                    if self.respondent.redirectable and self.respondent.redirectant:
+                    if (self.respondent.redirectable and self.respondent.redirectant
+                            and self.respondent.headers.get('location')):
                         self.redirects.append(copy.copy(response))
                         self.redirect()
                     else:
